@@ -143,6 +143,12 @@ def make_inputs(wd, rng, tier, nrandom):
     if len(re.findall(rb"startxref\n\d+\n", ad)) != 1:
         raise common.InfraError("the attachment input is not written with a classic xref table", ad[-200:].decode("latin-1"))
     open(os.path.join(wd, "a-damaged-att.pdf"), "wb").write(re.sub(rb"startxref\n\d+\n", b"startxref\n7\n", ad))
+    # structurally intact, but the second page's content stream does not inflate: qpdf opens it silently and warns when
+    # (and only when) a writer decodes the stream (--qdf, --stream-data=uncompress)
+    dd = pdfgen.page_doc(2, marker="Q")
+    good = __import__("zlib").compress(b"BT /F1 12 Tf 72 720 Td (Q2) Tj ET\n" * 30)
+    dd.objects[6] = pdfgen.Stream({b"Filter": pdfgen.Name(b"FlateDecode")}, good[:20] + bytes([good[20] ^ 0xff, good[21] ^ 0x55]) + good[22:])
+    open(os.path.join(wd, "w-decode.pdf"), "wb").write(pdfgen.write_classic(dd)[0])
     return inputs
 
 
@@ -733,6 +739,153 @@ def report(chk, runner, groups, variant, diffs, B, pid="C10", sigprefix="C10"):
     return nviol
 
 
+
+# ------------------------------------------------------------------ "the files it processed" (Sys/JobWarnModel.v)
+
+def files_processed_jobs(inputs):
+    """(name, argv, model descriptor) - descriptor: main late pages uo attach enc split decode wx0 in the spelling of
+    ocaml/h_sys.ml c10jexit; a file is two digits: warns-when-opened, has-embedded-files"""
+    p = inputs["small"]["path"]
+    F = {"00": c10sib(p, "z-clean.pdf"), "01": c10sib(p, "in-att.pdf"), "10": c10sib(p, "a-damaged.pdf"), "11": c10sib(p, "a-damaged-att.pdf")}
+    LATE = c10sib(p, "w-decode.pdf")
+    jobs = []
+
+    def job(name, main="00", late=False, pages=(), dot=True, uo=(), attach=(), enc=None, split=False, decode=False, wx0=False, uokind="--overlay"):
+        argv = ["--static-id"]
+        argv.append("--empty" if main is None else (LATE if late else F[main]))
+        if pages:
+            argv += ["--pages"] + (["."] if dot and main is not None else [])
+            for f in pages:
+                argv += [F[f], "1"]
+            argv.append("--")
+        for f in uo:
+            argv += [uokind, F[f], "--"]
+        for i, f in enumerate(attach):
+            argv += ["--copy-attachments-from", F[f], "--prefix=s%d-" % i, "--"]
+        if enc:
+            argv.append("--copy-encryption=" + F[enc])
+        if decode:
+            argv.append("--qdf")
+        if wx0:
+            argv.append("--warning-exit-0")
+        argv += ["--split-pages", "out-%d.pdf"] if split else ["out.pdf"]
+        desc = "%s %d %s %s %s %s %d %d %d" % ("-" if main is None else main, 1 if late else 0, ",".join(pages) or "-", ",".join(uo) or "-",
+                                              ",".join(attach) or "-", enc or "-", 1 if split else 0, 1 if decode else 0, 1 if wx0 else 0)
+        roles = []
+        if main is not None and main[0] == "1":
+            roles.append("main")
+        if late and decode:
+            roles.append("main(decode-failure)")
+        if any(f[0] == "1" for f in pages):
+            roles.append("pages")
+        if any(f[0] == "1" for f in uo):
+            roles.append(uokind[2:])
+        for f in attach:
+            if f[0] == "1":
+                r = "copy-attachments-from(%s)" % ("with-embedded-files" if f[1] == "1" else "no-embedded-files")
+                if r not in roles:
+                    roles.append(r)
+        if enc and enc[0] == "1":
+            roles.append("copy-encryption")
+        cls = "+".join((["split-pages"] if split else []) + (roles or ["all-clean"]))
+        jobs.append({"name": name, "argv": argv, "desc": desc, "class": cls, "wx0": wx0})
+
+    for split in (False, True):
+        sfx = "/split" if split else ""
+        job("all-clean" + sfx, split=split)
+        job("main" + sfx, main="10", split=split)
+        job("main-att" + sfx, main="11", split=split)
+        job("pages" + sfx, pages=("10",), split=split)
+        job("pages-only" + sfx, pages=("10",), dot=False, split=split)
+        job("pages-empty" + sfx, main=None, pages=("10", "00"), split=split)
+        job("pages-second" + sfx, pages=("00", "10"), split=split)
+        job("overlay" + sfx, uo=("10",), split=split)
+        job("underlay" + sfx, uo=("10",), uokind="--underlay", split=split)
+        job("attach-with" + sfx, attach=("11",), split=split)
+        job("attach-without" + sfx, attach=("10",), split=split)
+        job("enc" + sfx, enc="10", split=split)
+    # --copy-attachments-from: every position of a damaged source among clean ones, with and without embedded files
+    for srcs in (("01", "10"), ("10", "01"), ("01", "11"), ("11", "01"), ("10", "11"), ("11", "10"), ("00", "10"), ("10", "00"), ("10", "10"),
+                 ("01", "00"), ("00", "01"), ("01", "10", "01"), ("00", "10", "01")):
+        job("attach:" + "/".join(srcs), attach=srcs)
+    job("attach-without-on-att-main", main="01", attach=("10",))
+    job("attach-with-on-att-main", main="01", attach=("11",))
+    job("attach-clean-without", attach=("00",))
+    job("attach-clean-with", attach=("01",))
+    # two roles, one damaged
+    job("pages+attach-without", pages=("00",), attach=("10",))
+    job("overlay+attach-without", uo=("00",), attach=("10",))
+    job("enc+attach-without", enc="00", attach=("10",))
+    job("pages-damaged+attach-clean", pages=("10",), attach=("01",))
+    job("enc-damaged+pages", pages=("00",), enc="10")
+    job("enc-clean", enc="00")
+    job("overlay-clean", uo=("00",))
+    job("pages-clean", pages=("00",))
+    # --warning-exit-0
+    for kw in ({"main": "10"}, {"pages": ("10",)}, {"uo": ("10",)}, {"attach": ("10",)}, {"attach": ("11",)}, {"enc": "10"}, {}):
+        job("wx0:" + (",".join(sorted(kw)) or "clean"), wx0=True, **kw)
+    # a stream that fails to decode: warnings only when the writer decodes
+    for split in (False, True):
+        for decode in (False, True):
+            job("decode-failure%s%s" % ("/split" if split else "", "/qdf" if decode else ""), late=True, split=split, decode=decode)
+    job("decode-failure/qdf/wx0", late=True, decode=True, wx0=True)
+    job("decode-failure/qdf+attach-without", late=True, decode=True, attach=("10",))
+    return jobs
+
+
+def c10sib(i, name):
+    return os.path.join(os.path.dirname(i), name)
+
+
+def files_processed_part(chk, runner, wd, inputs):
+    """C10, first sentence, over the roles a file can have in a job: WARNING lines are never followed by exit status 0; the
+    exit status equals the extracted model's and the extracted role-free specification's"""
+    jobs = files_processed_jobs(inputs)
+
+    def one(j):
+        rd = os.path.join(wd, "fp-%d" % j)
+        os.makedirs(rd)
+        rc, so, se = common.run_qpdf(jobs[j]["argv"], cwd=rd)
+        outs = sorted(os.listdir(rd))
+        shutil.rmtree(rd, ignore_errors=True)
+        return rc, se, outs
+    impl = common.par_map(one, range(len(jobs)), workers=WORKERS)
+    mout = common.run_lines(runner, ["c10jexit " + j["desc"] for j in jobs])
+    slines = ["c10jobs %d %d %d" % (rc if rc >= 0 else 255, 1 if b"WARNING: " in se else 0, 1 if j["wx0"] else 0) for j, (rc, se, outs) in zip(jobs, impl)]
+    sout = common.run_lines(runner, slines)
+    nontriv, diffs, dist = set(), [], {}
+    for j, (rc, se, outs), mo, sv in zip(jobs, impl, mout, sout):
+        m_exit, s_exit, reported = (int(x) for x in mo.split(" "))
+        wl = b"WARNING: " in se
+        argv = ["qpdf"] + [os.path.basename(a) if a.startswith(wd) else a.replace(wd + "/", "") for a in j["argv"]]
+        key = "%s/exit%d" % (j["class"], rc)
+        dist[key] = dist.get(key, 0) + 1
+        if wl or j["class"] != "all-clean":
+            nontriv.add(j["name"])
+        if sv != "ok":
+            sig = "C10:files-processed:%s:exit%d" % (j["class"], rc)
+            chk.violation({"kind": "property-fails-on-implementation", "part": "files-processed", "why": sv,
+                           "case": {"argv": argv, "job": j["name"], "files": "z-clean.pdf / in-att.pdf: intact (without / with an embedded file); a-damaged.pdf / a-damaged-att.pdf: "
+                                    "wrong startxref, qpdf reconstructs the xref table with warnings (without / with an embedded file); w-decode.pdf: a content stream that does not inflate"},
+                           "exit": rc, "stderr": se.decode("latin-1")[-600:], "warning_lines_on_stderr": wl, "outputs": outs,
+                           "exit_status_of_the_model": m_exit, "exit_status_of_the_specification": s_exit, "signature": sig,
+                           "replay": {"part": "files-processed", "job": j["name"]}}, signature=sig)
+            sigs = chk.cov.setdefault("specification_violations_by_signature", {})
+            sigs[sig] = sigs.get(sig, 0) + 1
+        if rc != m_exit or (1 if wl else 0) != reported:
+            diffs.append((j, argv, rc, wl, m_exit, reported))
+    if diffs:
+        j, argv, rc, wl, m_exit, reported = diffs[0]
+        chk.violation({"kind": "correspondence-broken", "correspondence": "corr:C10:files-processed", "differing_cases": len(diffs),
+                       "first_case": {"argv": argv, "job": j["name"], "model_arguments": j["desc"]},
+                       "implementation": {"exit": rc, "warning_lines": wl}, "model": {"exit": m_exit, "warning_reported": bool(reported)},
+                       "all": [d[0]["name"] for d in diffs][:20],
+                       "note": "the exit status of the binary differs from Sys/JobWarnModel.v c10j_exit (QPDFJob's warning accounting), or the files do not "
+                               "give the warnings they were built to give"}, no_input=True)
+    chk.count("files-processed", len(jobs), nontriv, [{"argv": ["qpdf"] + [os.path.basename(a) for a in jobs[k]["argv"]], "exit": impl[k][0]} for k in (3, len(jobs) // 2)])
+    chk.cov["parts"]["files-processed"]["distribution"] = dist
+    chk.cov["parts"]["files-processed"]["model_differences"] = len(diffs)
+
 def run_coqchk(chk, pid):
     """thorough tier: independent re-check of the compiled property file and its axiom list"""
     with common.Lock("coq"):
@@ -792,6 +945,8 @@ def run(chk):
         groups.append(run_group(chk, runner, wd, s, iname, inputs[iname], B, lim, kinds=kinds))
     variant, diffs, total = evaluate(chk, runner, groups, B)
     report(chk, runner, groups, variant, diffs, B)
+    # the first sentence of the property over every role a file can have in a job
+    files_processed_part(chk, runner, wd, inputs)
     # /dev/full as the output path, no interposition at all
     rc, so, se = common.run_qpdf(["--static-id", inputs["big"]["path"], "/dev/full"])
     if rc in (0, 3):
